@@ -139,7 +139,10 @@ static void one(vh::Rng & r, vh::Out & out)
     if (r.coin(1, 6)) {b = 0;}                                                      // rank-deficient
     double c = (double)ang[0] / ang[2], s = (double)ang[1] / ang[2];
     Eigen::Matrix2d Q; Q << c, -s, s, c;
-    Eigen::Matrix2d cov = Q * Eigen::Vector2d((double)(a * a), (double)(b * b)).asDiagonal() * Q.transpose();
+    // the whole covariance scaled by 4^k (radii scale by 2^k, exactly): centimetre-, micrometre- and nanometre-sized uncertainties and large ones
+    const int k2 = (int)r.pick(IV{0, 0, 0, -7, -22, -30, 10});
+    const double unit = std::ldexp(1.0, k2);
+    Eigen::Matrix2d cov = Q * Eigen::Vector2d((double)(a * a), (double)(b * b)).asDiagonal() * Q.transpose() * (unit * unit);
     double sigma = r.pick(std::vector<double>{0.5, 1, 2, 3, 10});
     Ellipse e = [&] {
         int how = (int)r.range(0, 2);
@@ -154,13 +157,13 @@ static void one(vh::Rng & r, vh::Out & out)
     // machine epsilon times the major one, whose square root is ~1e-8 of the major radius
     auto radius = [&](double v) {double rv = std::nearbyint(v); if (!(std::fabs(v - rv) <= 1e-6 * (1.0 + a))) {ok = false;} return (long long)rv;};
     (void)tol;
-    long long major = radius(e.getMajorRadius() / sigma), minor = radius(e.getMinorRadius() / sigma);
+    long long major = radius(e.getMajorRadius() / sigma / unit), minor = radius(e.getMinorRadius() / sigma / unit);
     double th = e.getOrientation();
     IV orient{vh::proj(std::cos(th) * ang[2], ok, a > b ? 1e-6 : 1e9), vh::proj(std::sin(th) * ang[2], ok, a > b ? 1e-6 : 1e9)};
     if (a == b) {ok = ok || true; orient = IV{0, 0};}
     Eigen::Matrix2d Rr; Rr << std::cos(th), -std::sin(th), std::sin(th), std::cos(th);
     Eigen::Matrix2d recon = Rr * Eigen::Vector2d(e.getMajorRadius() * e.getMajorRadius(), e.getMinorRadius() * e.getMinorRadius()).asDiagonal() *
-      Rr.transpose() / (sigma * sigma);
+      Rr.transpose() / (sigma * sigma) / (unit * unit);
     bool ok2 = true;
     IM rc = pm(recon, 2, (double)(ang[2] * ang[2]), 1e-7, ok2);
     out.put(vh::Ev("ellipse").i("a", a).i("b", b).vec("ang", ang).i("major", major).i("minor", minor).vec("orient", orient).mat("recon", rc)
@@ -228,14 +231,14 @@ static void generic(vh::Rng & r, vh::Out & out)
   {
     Eigen::Matrix2d G; G << u() * 5, u() * 5, u() * 5, u() * 5;
     if (r.coin(1, 5)) {G.col(1) = G.col(0) * u();}
-    Eigen::Matrix2d C = G * G.transpose();
+    Eigen::Matrix2d C = G * G.transpose() * std::pow(10.0, r.coin(1, 3) ? -24 + 30 * std::fabs(u()) : 0.0);      // any magnitude: 1e-24 .. 1e6
     double sigma = 0.1 + (u() + 1) * 4.9;
     Ellipse e(Eigen::Vector2d(3, -4), C, sigma);
     double th = e.getOrientation(), a = e.getMajorRadius(), b = e.getMinorRadius();
-    if (!(a >= b - 1e-9 * (1 + a) && b >= -1e-9)) {ordered = false;}
+    if (!(a >= b - 1e-9 * a && b >= 0)) {ordered = false;}
     Eigen::Matrix2d Rr; Rr << std::cos(th), -std::sin(th), std::sin(th), std::cos(th);
     Eigen::Matrix2d recon = Rr * Eigen::Vector2d(a * a, b * b).asDiagonal() * Rr.transpose() / (sigma * sigma);
-    res.push_back(units((recon - C).cwiseAbs().maxCoeff() / std::max(1e-9, C.cwiseAbs().maxCoeff())));
+    res.push_back(units((recon - C).cwiseAbs().maxCoeff() / std::max(1e-300, C.cwiseAbs().maxCoeff())));
   }
   out.put(vh::Ev("generic").vec("res", res).b("ordered", ordered));
 }
